@@ -965,9 +965,11 @@ func (l *Lowerer) callFunc(callee *types.Func, recv *Term, recvTyp types.Type, c
 	ts, tys := l.callFunc1(callee, recv, recvTyp, ce)
 	after = append(after, l.afterCall...)
 	l.afterCall = nil
+	l.lastResults, l.lastResultTypes = ts, tys
 	for _, f := range after {
 		f()
 	}
+	l.lastResults, l.lastResultTypes = nil, nil
 	return ts, tys
 }
 
@@ -1005,10 +1007,14 @@ func (l *Lowerer) callSiteClauses(callee *types.Func, recv *Term, recvTyp types.
 			env["$"+n] = envEntry{recv, recvTyp}
 		}
 	}
-	for i := 0; i < sig.Params().Len() && i < len(args); i++ {
+	for i := 0; i < len(args) && i < len(atys); i++ {
+		// every argument is $arg<i> (the arguments of a variadic call are passed one by one); the named
+		// parameters are also available as $<name>
 		env[fmt.Sprintf("$arg%d", i)] = envEntry{args[i], atys[i]}
-		if n := sig.Params().At(i).Name(); n != "" && n != "_" {
-			env["$"+n] = envEntry{args[i], atys[i]}
+		if i < sig.Params().Len() {
+			if n := sig.Params().At(i).Name(); n != "" && n != "_" {
+				env["$"+n] = envEntry{args[i], atys[i]}
+			}
 		}
 	}
 	for _, n := range names {
@@ -1062,6 +1068,15 @@ func (l *Lowerer) callSiteNamed(name string, env map[string]envEntry, ce ast.Nod
 	l.afterCall = append(l.afterCall, func() {
 		if l.cur == nil {
 			return
+		}
+		// the results of the call: $result (the first) and $result<k>
+		for i, r := range l.lastResults {
+			if i < len(l.lastResultTypes) && r != nil {
+				env[fmt.Sprintf("$result%d", i)] = envEntry{r, l.lastResultTypes[i]}
+				if i == 0 {
+					env["$result"] = envEntry{r, l.lastResultTypes[i]}
+				}
+			}
 		}
 		savedPos := l.specPos
 		l.specPos = ce.Pos()
@@ -1627,6 +1642,29 @@ func (l *Lowerer) parseModItem(m string) []modItem {
 	case "$chanclosed":
 		l.heapVar("F.$chan.closed", "Bool")
 		return []modItem{{heapVar: "F.$chan.closed"}}
+	}
+	if strings.HasPrefix(m, "maps(") && strings.HasSuffix(m, ")") {
+		// every map of the static type of the expression and, transitively, of its element types
+		// (e.g. maps(r.records) for map[string]map[int32]Records: both levels, no other map type)
+		e, err := parseSpec(strings.TrimSuffix(strings.TrimPrefix(m, "maps("), ")"))
+		if err != nil {
+			panic(err)
+		}
+		_, typ := l.tr(e)
+		var out []modItem
+		for {
+			mt, ok := typ.Underlying().(*types.Map)
+			if !ok {
+				break
+			}
+			dom, val, card := l.mapVarsPlain(mt)
+			out = append(out, modItem{heapVar: dom}, modItem{heapVar: val}, modItem{heapVar: card})
+			typ = mt.Elem()
+		}
+		if len(out) == 0 {
+			panic("modifies " + m + ": not a map")
+		}
+		return out
 	}
 	if strings.HasPrefix(m, "map:") {
 		// the contents of one map object
